@@ -333,7 +333,7 @@ def rule_internal_iteration(ctx, taint, rule="C02/internal-iteration", scope=Non
 # ------------------------------------------------------------------------------------ loops
 FINITE_ITER = ("std::slice::Iter<", "std::slice::IterMut<", "std::iter::Enumerate<", "std::iter::Map<", "std::iter::Filter<", "std::iter::Chain<",
                "std::vec::IntoIter<", "std::ops::Range<", "std::ops::RangeInclusive<", "std::slice::ChunksExactMut<", "std::slice::ChunksExact<",
-               "std::slice::RChunksExactMut<", "std::slice::SplitN<", "std::str::Split<", "std::io::Lines<", "std::io::Split<", "std::fs::ReadDir",
+               "std::slice::RChunksExactMut<", "std::slice::Chunks<", "std::slice::ChunksMut<", "std::slice::RChunks<", "std::slice::RChunksExact<", "std::slice::Windows<", "std::slice::SplitN<", "std::str::Split<", "std::io::Lines<", "std::io::Split<", "std::fs::ReadDir",
                "std::iter::range::<impl std::iter::Iterator for std::ops::Range", "&mut I", "procfs_core::process::MemoryMaps", "std::iter::Rev<", "std::str::CharIndices")
 LOCAL_FINITE_ITER = {
     "<linux::auxv::reader::ProcfsAuxvIter as std::iter::Iterator>::next": "yields until AT_NULL / EOF / first error of a finite procfs file (keep_going is cleared before each item)",
